@@ -65,30 +65,43 @@ example : pulseStarts ⟨true, true, [[1, 0]]⟩
 
 /-! ## no overlap -/
 
-/-- The clause in full: `noOverlap ns starts` — no two distinct instructions that share a qubit have
-intersecting execution intervals.  It does **not** hold in general (below).
+/-- The clause in full is `noOverlap ns starts = true`: no two distinct instructions that share a qubit
+have intersecting execution intervals.  It does **not** hold in general (`C11_counterexample_no_overlap`).
 
-**no_overlap_partial.**  It holds when no qubit-sharing pair is declared commuting by the rule … -/
+**no_overlap_pair_partial.**  A qubit-sharing pair `i < j` that the rule does not declare commuting
+never overlaps. -/
+theorem no_overlap_pair_partial (hO : ∀ r l, (O2 r l).Perm l) (hdur : ∀ a ∈ ns, 0 ≤ a.dur) (i j : Nat) (hij : i < j)
+    (hj : j < ns.length) (hs : shareIdx ns i j = true) (hc : commIdx allowPerm ns j i = false) :
+    overlaps ns (startsGen alap allowPerm ns O2) i j = false ∧ overlaps ns (startsGen alap allowPerm ns O2) j i = false := by
+  have hd := durIdx_nonneg ns hdur
+  have hi : i < ns.length := by omega
+  have := dep_ineq alap allowPerm ns O2 hO hd hij hj hs hc
+  unfold overlaps
+  rw [startsGen_getD alap allowPerm ns O2 hi, startsGen_getD alap allowPerm ns O2 hj]
+  have h3 : decide (startOf alap allowPerm ns O2 j < startOf alap allowPerm ns O2 i + durIdx ns i) = false := by
+    simp only [decide_eq_false_iff_not]; omega
+  simp [h3]
+
+/-- **no_overlap_same_cycle.**  Two distinct instructions placed in the same cycle share no qubit, hence
+never "overlap on a shared qubit", whatever their durations. -/
+theorem no_overlap_same_cycle (c : List Nat) (hc : c ∈ cyclesGen alap allowPerm ns O2) (i j : Nat) (hi : i ∈ c)
+    (hj : j ∈ c) (hij : i ≠ j) (st : List Int) : overlaps ns st i j = false := by
+  unfold overlaps
+  rw [cyclesGen_disjoint alap allowPerm ns O2 c hc i hi j hj hij]
+  simp
+
+/-- **no_overlap_partial.**  The whole clause holds when no qubit-sharing pair is declared commuting … -/
 theorem no_overlap_partial (hO : ∀ r l, (O2 r l).Perm l) (hdur : ∀ a ∈ ns, 0 ≤ a.dur)
     (H : ∀ i j, i < j → j < ns.length → shareIdx ns i j = true → commIdx allowPerm ns j i = false) :
     noOverlap ns (startsGen alap allowPerm ns O2) = true := by
   rw [noOverlap_iff]
   intro i hi j hj hij
-  have hd := durIdx_nonneg ns hdur
-  unfold overlaps
   by_cases hs : shareIdx ns i j = true
-  · rw [startsGen_getD alap allowPerm ns O2 hi, startsGen_getD alap allowPerm ns O2 hj]
-    rcases Nat.lt_or_gt_of_ne hij with h | h
-    · have := dep_ineq alap allowPerm ns O2 hO hd h hj hs (H i j h hj hs)
-      have h3 : decide (startOf alap allowPerm ns O2 j < startOf alap allowPerm ns O2 i + durIdx ns i) = false := by
-        simp only [decide_eq_false_iff_not]; omega
-      simp [h3]
+  · rcases Nat.lt_or_gt_of_ne hij with h | h
+    · exact (no_overlap_pair_partial alap allowPerm ns O2 hO hdur i j h hj hs (H i j h hj hs)).1
     · have hs' : shareIdx ns j i = true := by rw [shareIdx, share_symm]; exact hs
-      have := dep_ineq alap allowPerm ns O2 hO hd h hi hs' (H j i h hi hs')
-      have h3 : decide (startOf alap allowPerm ns O2 i < startOf alap allowPerm ns O2 j + durIdx ns j) = false := by
-        simp only [decide_eq_false_iff_not]; omega
-      simp [h3]
-  · simp [hs]
+      exact (no_overlap_pair_partial alap allowPerm ns O2 hO hdur j i h hi hs' (H j i h hi hs')).2
+  · unfold overlaps; simp [hs]
 
 /-- … in particular always when permutation of commuting gates is disabled. -/
 theorem no_overlap_without_permutation (hO : ∀ r l, (O2 r l).Perm l) (hdur : ∀ a ∈ ns, 0 ≤ a.dur) :
